@@ -150,13 +150,13 @@ theorem QPrim.allocMono {c : Consts} {a b : Queue} (h : QPrim c a b) : AllocMono
   cases h with
   | sync => exact Queue.sync_AllocMono _ _ _
   | bumpErr => exact Queue.bumpErr_AllocMono _ _ _
-  | tryPause q =>
+  | tryPause =>
     refine AllocMono_of_allocs_append _ _ [] ?_
     unfold Queue.tryPause; split <;> simp
-  | trySubmit q r now res =>
-    obtain ⟨extra, h, _⟩ := Queue.trySubmit_allocs q r now res
+  | trySubmit r now res =>
+    obtain ⟨extra, h, _⟩ := Queue.trySubmit_allocs a r now res
     exact AllocMono_of_allocs_append _ _ extra h
-  | pause q => exact AllocMono_of_allocs_append _ _ [] (by simp)
+  | pause => exact AllocMono_of_allocs_append _ _ [] (by simp)
 
 theorem QTrans.allocMono {c : Consts} {a b : Queue} (h : QTrans c a b) : AllocMono a b :=
   QTrans.lift AllocMono AllocMono.refl (fun _ _ _ => AllocMono.trans) (fun _ _ h => h.allocMono) h
@@ -175,9 +175,9 @@ theorem QPrim.paused {c : Consts} {a b : Queue} (h : QPrim c a b) (hp : a.active
   cases h with
   | sync => rw [(Queue.sync_active _ _ _).1]; exact hp
   | bumpErr => rw [(Queue.bumpErr_active _ _ _).1]; exact hp
-  | tryPause q => unfold Queue.tryPause; split <;> simp [hp]
-  | trySubmit q r now res =>
-    obtain ⟨_, _, h, _⟩ := Queue.trySubmit_allocs q r now res
+  | tryPause => unfold Queue.tryPause; split <;> simp [hp]
+  | trySubmit r now res =>
+    obtain ⟨_, _, h, _⟩ := Queue.trySubmit_allocs a r now res
     rw [h]; exact hp
   | pause => rfl
 
@@ -189,9 +189,9 @@ theorem QPrim.params {c : Consts} {a b : Queue} (h : QPrim c a b) : b.params = a
   cases h with
   | sync => exact (Queue.sync_active _ _ _).2
   | bumpErr => exact (Queue.bumpErr_active _ _ _).2.1
-  | tryPause q => unfold Queue.tryPause; split <;> rfl
-  | trySubmit q r now res =>
-    obtain ⟨_, _, _, h, _⟩ := Queue.trySubmit_allocs q r now res
+  | tryPause => unfold Queue.tryPause; split <;> rfl
+  | trySubmit r now res =>
+    obtain ⟨_, _, _, h, _⟩ := Queue.trySubmit_allocs a r now res
     exact h
   | pause => rfl
 
